@@ -94,6 +94,14 @@ var forceCarry = map[string]struct{ msin, pos int }{}
 func genConfig(r *kernel.Rand, o GenOpts, nUE int) scn.Config {
 	var c scn.Config
 	c.AmfNgapIP, c.StgNgapIP, c.GnbGtpIP = genIP(r), genIP(r), genIP(r)
+	switch r.Sub("wild").Intn(12) { // the unspecified local address is a legal value of stg_ngap_ip
+	case 0:
+		c.StgNgapIP = "0.0.0.0"
+	case 1:
+		c.StgNgapIP = "::"
+	case 2:
+		c.AmfNgapIP = "127.0.0.1"
+	}
 	c.AmfNgapPort = r.Pick(38412, 48412, r.Range(1, 65535))
 	c.StgNgapPort = r.Pick(9487, r.Range(1, 65535))
 	c.MCC = r.Digits(3)
@@ -248,6 +256,9 @@ func genConfig(r *kernel.Rand, o GenOpts, nUE int) scn.Config {
 
 func genAMF(r *kernel.Rand) scn.AMFParams {
 	a := scn.AMFParams{Name: "amf" + r.Digits(r.Range(1, 8)), Region: r.Intn(256), SetID: r.Intn(1024), Pointer: r.Intn(64), Capacity: r.Intn(256), NSlices: r.Range(1, 3)}
+	if rg := r.Sub("guami"); rg.Chance(1, 5) { // a shared AMF whose own GUAMI belongs to another PLMN
+		a.GUAMIPLMN = rg.Digits(3) + rg.Digits(2+rg.Intn(2))
+	}
 	rp := r.Sub("plmns")
 	if rp.Chance(1, 3) { // the AMF serves further PLMNs, listed before and/or after the gNB's
 		for i := 0; i < rp.Intn(3); i++ {
@@ -411,6 +422,9 @@ func genUE(r *kernel.Rand, o GenOpts, ord int) scn.UEParams {
 		p.AMBRUL = structInt(rs, 4000000000000)
 	}
 	p.FiveQI = r.Pick(1, 5, 9, 255, r.Intn(256))
+	if o.OptIEs {
+		p.NFlows = r.Sub("flows").Pick(1, 1, 1, 2, 6, 21, 22, 23, 30, 40, 64) // the list crosses 128 octets at about 25 flows
+	}
 	p.SvcPDU = r.Bool()
 	return p
 }
